@@ -17,7 +17,7 @@ func init() {
 		run: runC19,
 		explanation: "Decided (structural, for every CSV file and both modes): " +
 			"C19.csvstrict — no option of the csv.Reader is changed from its strict defaults (ragged records and bare quotes stay errors, field contents stay exact); " +
-			"C19.records — every csv Read call site in the create command is classified: the first record is the header and flows only into the header normalisation; every other read sits in the record loop, and on its non-error path the record is turned into a row (values[header[i]] = record[i] for the same range index i over the record, header being the normalised header) that reaches exactly one AddRow before the next read, on every path; no record is read and dropped; " +
+			"C19.records — every csv Read call site in the create command is classified: the first record is the header and flows only into the header normalisation; every other read sits in the record loop, and on its non-error path the record is turned into a row (values[header[i]] = record[i] for the same range index i over the record, header being the normalised header) that reaches exactly one AddRow before the next read, on every path; no record is read and dropped; the reading may sit in helpers of the command (a function given the reader and the header, or a helper type that keeps the reader and the normalised header in fields, reads the header in its constructor and returns one row per call): the header is followed through parameters, helper results and struct fields that are only ever assigned it, and a helper that returns the row instead of adding it must return a faithful row for every record it read and tell its caller (flag or non-nil error) when it has none, the caller then owes exactly one AddRow per returned row and none otherwise; " +
 			"C19.normalize — the header normalisation lower-cases and then maps every rune through a function that returns either its argument, only under a test r >= 'a' && r <= 'z', or the constant '_'; " +
 			"C19.errexit — errors of reading (except io.EOF, which ends the input), AddRow, Flush, both bbolt.Open calls and the big writer's constructor reach the command's error result; the cobra RunE closure returns it and main exits with a non-zero constant when Execute fails; " +
 			"C19.txrelease — a writer that keeps a bbolt write transaction open between calls has a method that rolls it back, and the command runs it (deferred) on every path after constructing the writer, so a failure cannot leave DB.Close waiting on a pending transaction (the command would hang instead of exiting non-zero); " +
@@ -94,109 +94,87 @@ func c19CSVStrict(c *Ctx) {
 	}
 }
 
+// c19Records follows the csv records of the create command from the Read call sites to AddRow. The reading may live in
+// helpers of the command: a function that is handed the reader and the header (`addRows(r, header, iw)`), or a helper
+// type that owns both (`rowReader{records *csv.Reader, header []string}` with a constructor that reads and normalises the
+// header and a `Next()` that returns the next row). The invariants are the same in every shape:
+//
+//	header   the record that goes into the header normalisation is read exactly once and before every other read, and is
+//	         used for nothing else;
+//	row      every other read's record becomes a row values[header[i]] = record[i] (same i, over the whole record), where
+//	         `header` denotes the normalised header: the normalisation's result itself, a parameter or helper result bound
+//	         to it, or a load of a struct field that is only ever assigned it;
+//	once     a successfully read record reaches exactly one AddRow before the next read. When the function that reads
+//	         does not add rows itself it must *return* the row (a "record source", see c19RecordSource) and the obligation
+//	         moves to its callers, with the helper's call in the place of the read.
 func c19Records(c *Ctx) {
 	const rule = "C19.records"
 	top := c.a.CreateCmd
 	name := safeFname(top)
-	fns := c.scope(top, 2, c.a.NormalizeHeader)
-	type readSite struct {
-		fn   *ssa.Function
-		call *ssa.Call
-	}
-	var reads []readSite
-	for _, fn := range fns {
+	st := &c19rec{c: c, top: top, fns: c.scope(top, 2, c.a.NormalizeHeader), hdr: map[*ssa.Function]map[ssa.Value]bool{}, hdrFields: map[*types.Var]bool{}}
+	for _, fn := range st.fns {
 		allInstrs(fn, func(i ssa.Instruction) {
 			if call, ok := i.(*ssa.Call); ok && calleeName(&call.Call) == "(*encoding/csv.Reader).Read" {
-				reads = append(reads, readSite{fn, call})
+				st.reads = append(st.reads, c19read{fn, call})
 			}
 			if call, ok := i.(*ssa.Call); ok && calleeName(&call.Call) == "(*encoding/csv.Reader).ReadAll" {
 				c.r.undecided(rule, name+": ReadAll", "records are read with ReadAll, a form this rule does not follow", c.w.ipos(i))
 			}
 		})
 	}
-	if len(reads) < 2 {
-		c.r.undecided(rule, name, fmt.Sprintf("expected a header read and a record-loop read, found %d csv Read call sites", len(reads)), c.w.pos(top.Pos()))
+	if len(st.reads) < 2 {
+		c.r.undecided(rule, name, fmt.Sprintf("expected a header read and a record-loop read, found %d csv Read call sites", len(st.reads)), c.w.pos(top.Pos()))
 		return
 	}
-	// header: the read (in the command function) whose record flows into normalizeHeader
-	var headerRead *ssa.Call
-	var normCall *ssa.Call
-	allInstrs(top, func(i ssa.Instruction) {
-		call, ok := i.(*ssa.Call)
-		if !ok || calleeFunc(&call.Call) != c.a.NormalizeHeader {
-			return
-		}
-		if e, ok := call.Call.Args[0].(*ssa.Extract); ok && e.Index == 0 {
-			if rc, ok := e.Tuple.(*ssa.Call); ok {
-				headerRead, normCall = rc, call
+	// header: the read (in the command function or in a helper of it) whose record flows into normalizeHeader
+	var headerRead, normCall *ssa.Call
+	for _, fn := range st.fns {
+		allInstrs(fn, func(i ssa.Instruction) {
+			call, ok := i.(*ssa.Call)
+			if !ok || headerRead != nil || calleeFunc(&call.Call) != c.a.NormalizeHeader {
+				return
 			}
-		}
-	})
+			if e, ok := call.Call.Args[0].(*ssa.Extract); ok && e.Index == 0 {
+				if rc, ok := e.Tuple.(*ssa.Call); ok && st.isRead(rc) {
+					headerRead, normCall = rc, call
+				}
+			}
+		})
+	}
 	if headerRead == nil {
 		c.r.bad(rule, name+": header", "no csv record is passed to the header normalisation: the header is not taken from the first record", []string{c.w.pos(top.Pos())})
 		return
 	}
-	// values that denote the normalised header, per function (bound through helper parameters), and the call in the
-	// command function through which each helper is entered
-	hdr := map[*ssa.Function]map[ssa.Value]bool{top: {ssa.Value(normCall): true}}
-	entry := map[*ssa.Function]ssa.Instruction{}
-	for round := 0; round < 3; round++ {
-		for _, fn := range fns {
-			if hdr[fn] == nil {
-				continue
-			}
-			allInstrs(fn, func(i ssa.Instruction) {
-				call, ok := i.(*ssa.Call)
-				if !ok {
-					return
-				}
-				g := calleeFunc(&call.Call)
-				if g == nil || g == fn {
-					return
-				}
-				inScope := false
-				for _, f := range fns {
-					if f == g {
-						inScope = true
-					}
-				}
-				if !inScope {
-					return
-				}
-				if _, ok := entry[g]; !ok {
-					if fn == top {
-						entry[g] = i
-					} else if e, ok := entry[fn]; ok {
-						entry[g] = e
-					}
-				}
-				for k, a := range call.Call.Args {
-					if hdr[fn][a] && k < len(g.Params) {
-						if hdr[g] == nil {
-							hdr[g] = map[ssa.Value]bool{}
-						}
-						hdr[g][g.Params[k]] = true
-					}
-				}
-			})
-		}
-	}
+	hfn := headerRead.Parent()
+	st.hdr[hfn] = map[ssa.Value]bool{ssa.Value(normCall): true}
+	st.propagateHeader()
+
 	// the header read happens once and before any other read
-	okHdr := !c.fc.reachableFrom(top, headerRead, headerRead)
-	for _, r := range reads {
+	okHdr, unk := st.execOnce(headerRead, 3), ""
+	for _, r := range st.reads {
 		if r.call == headerRead {
 			continue
 		}
-		at := ssa.Instruction(r.call)
-		if r.fn != top {
-			at = entry[r.fn]
-			if at == nil {
+		if r.fn == hfn {
+			if c.fc.reachableFrom(hfn, r.call, headerRead) || !c.fc.reachableFrom(hfn, headerRead, r.call) {
 				okHdr = false
-				continue
 			}
+			continue
 		}
-		if c.fc.reachableFrom(top, at, headerRead) || !c.fc.reachableFrom(top, headerRead, at) {
+		hAts, rAts := st.liftAll(headerRead), st.liftAll(r.call)
+		if len(hAts) == 0 || len(rAts) == 0 {
 			okHdr = false
+			continue
+		}
+		for _, h := range hAts {
+			for _, at := range rAts {
+				switch {
+				case h == at:
+					unk = "the header read and a record read are both reached through the same call of " + name + ": their order is not followed that deep"
+				case c.fc.reachableFrom(top, at, h) || !c.fc.reachableFrom(top, h, at):
+					okHdr = false
+				}
+			}
 		}
 	}
 	if e := extractOf(headerRead, 0); e != nil {
@@ -206,10 +184,14 @@ func c19Records(c *Ctx) {
 			}
 		}
 	}
-	c.r.check(okHdr, rule, name+": header", "the first record read is the header and is used only for that", "the header is not exactly the first record (another read precedes it, it is read repeatedly, or the header record is also used as data)", c.w.ipos(headerRead))
+	if okHdr && unk != "" {
+		c.r.undecided(rule, name+": header", unk, c.w.ipos(headerRead))
+	} else {
+		c.r.check(okHdr, rule, name+": header", "the first record read is the header and is used only for that", "the header is not exactly the first record (another read precedes it, it is read repeatedly, or the header record is also used as data)", c.w.ipos(headerRead))
+	}
 
 	k := 0
-	for _, rs := range reads {
+	for _, rs := range st.reads {
 		if rs.call == headerRead {
 			continue
 		}
@@ -222,81 +204,584 @@ func c19Records(c *Ctx) {
 			c.r.bad(rule, key, "a record is read and discarded (or its error ignored): that record never becomes a row", []string{c.w.ipos(r)})
 			continue
 		}
-		var addRows []ssa.Instruction
-		allInstrs(fn, func(i ssa.Instruction) {
-			call, ok := i.(*ssa.Call)
-			if !ok {
-				return
+		isRec := func(x ssa.Value) bool { return phiIncludes(x, rec) }
+		if len(st.addRowsIn(fn)) > 0 {
+			// the function that reads also adds the row
+			rowIs := func(m ssa.Value, a ssa.Instruction) (bool, string) {
+				return rowBuilt(c, m, func(x ssa.Value) bool { return st.isHdr(fn, x) }, isRec, a, 0)
 			}
-			if call.Call.IsInvoke() && call.Call.Method.Name() == "AddRow" {
-				addRows = append(addRows, i)
-			}
-			if f := calleeFunc(&call.Call); f != nil && f.Name() == "AddRow" && c.w.pkgPathOf(f) == pkgRoot {
-				addRows = append(addRows, i)
-			}
-		})
-		isAddRow := func(i ssa.Instruction) bool {
-			for _, a := range addRows {
-				if a == i {
-					return true
-				}
-			}
-			return false
-		}
-		isRead := func(i ssa.Instruction) bool {
-			for _, x := range reads {
-				if ssa.Instruction(x.call) == i {
-					return true
-				}
-			}
-			return false
-		}
-		// (2) the row passed to AddRow is built from this record and the normalised header
-		rowOK, why := false, "no AddRow call takes a row built from this record"
-		for _, a := range addRows {
-			cc := callCommon(a)
-			m := cc.Args[len(cc.Args)-1]
-			if ok, w := rowBuilt(c, m, func(x ssa.Value) bool { return hdr[fn][x] }, func(x ssa.Value) bool { return phiIncludes(x, rec) }, a, 0); ok {
-				rowOK = true
+			if f := st.consumed(fn, r, rowIs, c19NoRowEdge(errv, nil, false)); f != nil {
+				c.r.bad(rule, key, f.msg, []string{c.w.ipos(f.site)}, c.fc.witnessStrings(f.witness)...)
 			} else {
-				why = w
+				c.r.ok(rule, key, "record -> values[header[i]] = record[i] -> exactly one AddRow per record", c.w.ipos(r))
 			}
-		}
-		if !rowOK {
-			c.r.bad(rule, key, "the record is not turned into a row faithfully: "+why, []string{c.w.ipos(r)})
 			continue
 		}
-		// (3) on the non-error path: exactly one AddRow before the next read / the end
-		errNil := func(pred, succ *ssa.BasicBlock) bool { // cut the error branch
-			iff, ok := pred.Instrs[len(pred.Instrs)-1].(*ssa.If)
-			if !ok {
-				return false
-			}
-			for _, cm := range trueCmps(fact{iff.Cond, pred.Succs[0] == succ}) {
-				if cm.Op == token.NEQ && cm.Y != nil && phiIncludes(cm.X, errv) && isNilConst(cm.Y) {
-					return true
+		// the function that reads hands the row to its callers
+		src, f := c19RecordSource(st, fn, r, isRec, errv)
+		if f != nil {
+			c.r.bad(rule, key, f.msg, []string{c.w.ipos(f.site)}, c.fc.witnessStrings(f.witness)...)
+			continue
+		}
+		var sites []*ssa.Call
+		for _, g := range st.fns {
+			allInstrs(g, func(i ssa.Instruction) {
+				if cc := callCommon(i); cc != nil && calleeFunc(cc) == fn {
+					if call, ok := i.(*ssa.Call); ok {
+						sites = append(sites, call)
+					} else {
+						f = &c19fail{"the helper that reads the record is started with go/defer: its row cannot reach AddRow", i, nil}
+					}
 				}
-			}
-			return false
+			})
 		}
-		if p := c.fc.pathFrom(fn, r, func(i ssa.Instruction) bool { return isRead(i) || isSuccessReturn(i) }, isAddRow, errNil); p != nil {
-			c.r.bad(rule, key, "a successfully read record can reach the next read (or the end) without an AddRow: the record is skipped", []string{c.w.ipos(r)}, c.fc.witnessStrings(p)...)
-			continue
+		if f == nil && len(sites) == 0 {
+			f = &c19fail{"the helper that reads the record is not called from the create command in a way this rule follows", r, nil}
 		}
-		double := false
-		for _, a := range addRows {
-			if !c.fc.reachableFrom(fn, r, a) {
-				continue
+		for _, cs := range sites {
+			if f != nil {
+				break
 			}
-			if p := c.fc.pathFrom(fn, a, isAddRow, isRead, nil); p != nil {
-				double = true
-				c.r.bad(rule, key, "a record can be added twice before the next read", []string{c.w.ipos(a)}, c.fc.witnessStrings(p)...)
+			cs := cs
+			g := cs.Parent()
+			if len(st.addRowsIn(g)) == 0 {
+				f = &c19fail{"the record is not turned into a row faithfully: the row returned by " + safeFname(fn) + " is not passed to AddRow by its caller " + safeFname(g), cs, nil}
+				break
 			}
+			rowv := resultValue(cs, src.km)
+			errAt, okAt := resultValue(cs, src.ke), ssa.Value(nil)
+			if src.kb >= 0 {
+				okAt = resultValue(cs, src.kb)
+			}
+			rowIs := func(m ssa.Value, a ssa.Instruction) (bool, string) {
+				if rowv == nil || m != ssa.Value(rowv) {
+					return false, "no AddRow call takes the row returned by " + safeFname(fn)
+				}
+				// AddRow must not run when the helper returned without a row (end of input, error)
+				for _, nr := range src.noRow {
+					okKnown := nr.okDist && okAt != nil && ((src.bT && knownTrue(okAt, a)) || (!src.bT && knownFalse(okAt, a)))
+					errKnown := nr.errDist && errAt != nil && c19KnownNil(errAt, a)
+					if !okKnown && !errKnown {
+						return false, "AddRow is also reached when " + safeFname(fn) + " returned no row (" + c.w.ipos(nr.ret) + "): a spurious empty row is added"
+					}
+				}
+				return true, ""
+			}
+			f = st.consumed(g, cs, rowIs, c19NoRowEdge(errAt, okAt, src.bT))
 		}
-		if !double {
-			c.r.ok(rule, key, "record -> values[header[i]] = record[i] -> exactly one AddRow per record", c.w.ipos(r))
+		if f != nil {
+			c.r.bad(rule, key, f.msg, []string{c.w.ipos(f.site)}, c.fc.witnessStrings(f.witness)...)
+		} else {
+			c.r.ok(rule, key, "record -> values[header[i]] = record[i] -> returned as the row -> exactly one AddRow per returned row", c.w.ipos(r))
 		}
 	}
+}
+
+type c19read struct {
+	fn   *ssa.Function
+	call *ssa.Call
+}
+
+type c19fail struct {
+	msg     string
+	site    ssa.Instruction
+	witness []ssa.Instruction
+}
+
+// c19rec is the state shared by the parts of c19Records: the command's scope, its csv Read sites, and what denotes the
+// normalised header in each function.
+type c19rec struct {
+	c         *Ctx
+	top       *ssa.Function
+	fns       []*ssa.Function
+	reads     []c19read
+	hdr       map[*ssa.Function]map[ssa.Value]bool
+	hdrFields map[*types.Var]bool
+}
+
+func (st *c19rec) inScope(f *ssa.Function) bool {
+	for _, x := range st.fns {
+		if x == f {
+			return true
+		}
+	}
+	return false
+}
+
+func (st *c19rec) isRead(i ssa.Instruction) bool {
+	for _, x := range st.reads {
+		if ssa.Instruction(x.call) == i {
+			return true
+		}
+	}
+	return false
+}
+
+// isReadLike: a csv Read, or a call of a helper of the command that (transitively) reads.
+func (st *c19rec) isReadLike(i ssa.Instruction) bool {
+	if st.isRead(i) {
+		return true
+	}
+	cc := callCommon(i)
+	if cc == nil {
+		return false
+	}
+	g := calleeFunc(cc)
+	return g != nil && st.inScope(g) && st.c.fc.mayContain(g, st.isRead, 2)
+}
+
+func (st *c19rec) addRowsIn(fn *ssa.Function) []ssa.Instruction {
+	var out []ssa.Instruction
+	allInstrs(fn, func(i ssa.Instruction) {
+		call, ok := i.(*ssa.Call)
+		if !ok {
+			return
+		}
+		if call.Call.IsInvoke() && call.Call.Method.Name() == "AddRow" {
+			out = append(out, i)
+		}
+		if f := calleeFunc(&call.Call); f != nil && f.Name() == "AddRow" && st.c.w.pkgPathOf(f) == pkgRoot {
+			out = append(out, i)
+		}
+	})
+	return out
+}
+
+// isHdr: v denotes the normalised header in fn.
+func (st *c19rec) isHdr(fn *ssa.Function, v ssa.Value) bool {
+	if st.hdr[fn][v] {
+		return true
+	}
+	if ld, ok := v.(*ssa.UnOp); ok && ld.Op == token.MUL {
+		if fa, ok := ld.X.(*ssa.FieldAddr); ok {
+			return st.hdrFields[fieldOf(fa.X.Type(), fa.Field)]
+		}
+	}
+	return false
+}
+
+// propagateHeader extends "denotes the normalised header" from the normalisation call to
+//
+//	(a) a parameter of a helper, when every call of the helper in the command's scope passes the header for it;
+//	(b) a result of a helper that returns the header on every return (nil next to a non-nil error is fine), at the
+//	    helper's call sites;
+//	(c) loads of a struct field of the command's package, when every assignment to that field anywhere in the package
+//	    stores the header, the field's address is used for nothing but these stores and plain loads, and no whole struct
+//	    of the type is overwritten. The header is read only once (checked by the caller), so every object of the type that
+//	    has the field set carries the one normalised header; an object without it has a nil header, and indexing that
+//	    panics instead of mislabelling a value.
+func (st *c19rec) propagateHeader() {
+	c := st.c
+	add := func(fn *ssa.Function, v ssa.Value) {
+		if v == nil {
+			return
+		}
+		if st.hdr[fn] == nil {
+			st.hdr[fn] = map[ssa.Value]bool{}
+		}
+		st.hdr[fn][v] = true
+	}
+	for round := 0; round < 4; round++ {
+		// (a) parameters
+		type pk struct {
+			g *ssa.Function
+			k int
+		}
+		all, some := map[pk]bool{}, map[pk]bool{}
+		for _, fn := range st.fns {
+			allInstrs(fn, func(i ssa.Instruction) {
+				cc := callCommon(i)
+				if cc == nil {
+					return
+				}
+				g := calleeFunc(cc)
+				if g == nil || g == fn || !st.inScope(g) {
+					return
+				}
+				for k, a := range cc.Args {
+					if k >= len(g.Params) {
+						continue
+					}
+					key := pk{g, k}
+					if st.isHdr(fn, a) {
+						if _, seen := all[key]; !seen {
+							all[key] = true
+						}
+						some[key] = true
+					} else {
+						all[key] = false
+					}
+				}
+			})
+		}
+		for key := range some {
+			if all[key] {
+				add(key.g, key.g.Params[key.k])
+			}
+		}
+		// (b) results
+		for _, g := range st.fns {
+			res := g.Signature.Results()
+			for k := 0; k < res.Len(); k++ {
+				n, good := 0, true
+				allInstrs(g, func(i ssa.Instruction) {
+					ret, ok := i.(*ssa.Return)
+					if !ok || isRecoverBlockReturn(ret) || k >= len(ret.Results) {
+						return
+					}
+					v := retVals(ret)[k]
+					switch {
+					case st.isHdr(g, v):
+						n++
+					case isNilConst(v) && isErrorReturn(ret):
+					default:
+						good = false
+					}
+				})
+				if n == 0 || !good {
+					continue
+				}
+				for _, fn := range st.fns {
+					allInstrs(fn, func(i ssa.Instruction) {
+						if call, ok := i.(*ssa.Call); ok && calleeFunc(&call.Call) == g && fn != g {
+							add(fn, resultValue(call, k))
+						}
+					})
+				}
+			}
+		}
+		// (c) fields
+		type fieldUse struct {
+			stores int
+			good   bool
+			owner  types.Type
+		}
+		uses := map[*types.Var]*fieldUse{}
+		var pkgFns []*ssa.Function
+		for _, fn := range c.w.ModFuncs {
+			if c.w.pkgPathOf(fn) == pkgCmd {
+				pkgFns = append(pkgFns, fn)
+			}
+		}
+		for _, fn := range pkgFns {
+			allInstrs(fn, func(i ssa.Instruction) {
+				fa, ok := i.(*ssa.FieldAddr)
+				if !ok {
+					return
+				}
+				f := fieldOf(fa.X.Type(), fa.Field)
+				if f == nil {
+					return
+				}
+				if sl, ok := f.Type().Underlying().(*types.Slice); !ok || !types.Identical(sl.Elem(), types.Typ[types.String]) {
+					return
+				}
+				u := uses[f]
+				if u == nil {
+					u = &fieldUse{good: true}
+					if p, ok := fa.X.Type().Underlying().(*types.Pointer); ok {
+						u.owner = p.Elem()
+					}
+					uses[f] = u
+				}
+				for _, r := range referrers(fa) {
+					switch x := r.(type) {
+					case *ssa.Store:
+						if x.Addr != ssa.Value(fa) || !st.isHdr(fn, x.Val) {
+							u.good = false
+						} else {
+							u.stores++
+						}
+					case *ssa.UnOp:
+						if x.Op != token.MUL {
+							u.good = false
+						}
+					case *ssa.DebugRef:
+					default:
+						u.good = false // the field's address escapes: it may be written through it
+					}
+				}
+			})
+		}
+		for _, fn := range pkgFns {
+			allInstrs(fn, func(i ssa.Instruction) {
+				if s, ok := i.(*ssa.Store); ok {
+					for _, u := range uses {
+						if u.owner != nil && types.Identical(s.Val.Type(), u.owner) {
+							u.good = false
+						}
+					}
+				}
+			})
+		}
+		for f, u := range uses {
+			if u.good && u.stores > 0 {
+				st.hdrFields[f] = true
+			}
+		}
+	}
+}
+
+// callSites lists the instructions in the command's scope that call fn.
+func (st *c19rec) callSites(fn *ssa.Function) []ssa.Instruction {
+	var out []ssa.Instruction
+	for _, g := range st.fns {
+		allInstrs(g, func(i ssa.Instruction) {
+			if cc := callCommon(i); cc != nil && calleeFunc(cc) == fn {
+				out = append(out, i)
+			}
+		})
+	}
+	return out
+}
+
+// execOnce: ins executes at most once per run of the command: it is not on a cycle of its function, and its function
+// is the command itself or has a single call site that executes at most once.
+func (st *c19rec) execOnce(ins ssa.Instruction, depth int) bool {
+	fn := ins.Parent()
+	if depth < 0 || st.c.fc.reachableFrom(fn, ins, ins) {
+		return false
+	}
+	if fn == st.top {
+		return true
+	}
+	sites := st.callSites(fn)
+	return len(sites) == 1 && st.execOnce(sites[0], depth-1)
+}
+
+// liftAll maps an instruction of a helper to the instructions of the command function through which it is reached
+// (itself if it already lives there).
+func (st *c19rec) liftAll(ins ssa.Instruction) []ssa.Instruction {
+	if ins.Parent() == st.top {
+		return []ssa.Instruction{ins}
+	}
+	var out []ssa.Instruction
+	seen := map[ssa.Instruction]bool{}
+	var up func(i ssa.Instruction, depth int)
+	up = func(i ssa.Instruction, depth int) {
+		if depth < 0 {
+			return
+		}
+		for _, s := range st.callSites(i.Parent()) {
+			if s.Parent() == st.top {
+				if !seen[s] {
+					seen[s] = true
+					out = append(out, s)
+				}
+			} else {
+				up(s, depth-1)
+			}
+		}
+	}
+	up(ins, 2)
+	return out
+}
+
+// c19NoRowEdge returns the predicate of CFG edges on which a read (error result errv, optional "have a row" flag okv that
+// equals bT for a row) is known to have produced no record: err != nil, errors.Is(err, io.EOF) / err == io.EOF, or the
+// flag having the other value.
+func c19NoRowEdge(errv, okv ssa.Value, bT bool) func(pred, succ *ssa.BasicBlock) bool {
+	return func(pred, succ *ssa.BasicBlock) bool {
+		iff, ok := pred.Instrs[len(pred.Instrs)-1].(*ssa.If)
+		if !ok || len(pred.Succs) != 2 || pred.Succs[0] == pred.Succs[1] {
+			return false
+		}
+		taken := pred.Succs[0] == succ
+		for _, cm := range trueCmps(fact{iff.Cond, taken}) {
+			if cm.Y == nil {
+				if okv != nil && sameValue(cm.X, okv) && (cm.Op == token.EQL) != bT {
+					return true
+				}
+				if ic, isCall := cm.X.(*ssa.Call); isCall && cm.Op == token.EQL && errv != nil && calleeName(&ic.Call) == "errors.Is" && phiIncludes(ic.Call.Args[0], errv) && isGlobalNamed(ic.Call.Args[1], "io", "EOF") {
+					return true
+				}
+				continue
+			}
+			if errv == nil {
+				continue
+			}
+			for _, p := range [][2]ssa.Value{{cm.X, cm.Y}, {cm.Y, cm.X}} {
+				if !phiIncludes(p[0], errv) {
+					continue
+				}
+				if cm.Op == token.NEQ && isNilConst(p[1]) {
+					return true
+				}
+				if cm.Op == token.EQL && isGlobalNamed(p[1], "io", "EOF") {
+					return true
+				}
+			}
+		}
+		return false
+	}
+}
+
+// c19KnownNil: v == nil is a dominating fact at `at`.
+func c19KnownNil(v ssa.Value, at ssa.Instruction) bool {
+	for _, cm := range cmpsAt(at) {
+		if cm.Op == token.EQL && cm.Y != nil && ((sameValue(cm.X, v) && isNilConst(cm.Y)) || (sameValue(cm.Y, v) && isNilConst(cm.X))) {
+			return true
+		}
+	}
+	return false
+}
+
+// consumed checks, in fn, that what the source instruction src produced (a csv Read, or the call of a record source)
+// ends up in exactly one AddRow: some AddRow takes a row that rowIs accepts; with the edges on which src produced
+// nothing cut, src cannot reach the next read or a successful return without an AddRow; and no second AddRow follows
+// before the next read. nil when all of this holds.
+func (st *c19rec) consumed(fn *ssa.Function, src ssa.Instruction, rowIs func(m ssa.Value, a ssa.Instruction) (bool, string), noRow func(pred, succ *ssa.BasicBlock) bool) *c19fail {
+	c := st.c
+	addRows := st.addRowsIn(fn)
+	isAddRow := func(i ssa.Instruction) bool {
+		for _, a := range addRows {
+			if a == i {
+				return true
+			}
+		}
+		return false
+	}
+	rowOK, why := false, "no AddRow call takes a row built from this record"
+	for _, a := range addRows {
+		cc := callCommon(a)
+		if ok, w := rowIs(cc.Args[len(cc.Args)-1], a); ok {
+			rowOK = true
+		} else {
+			why = w
+		}
+	}
+	if !rowOK {
+		return &c19fail{"the record is not turned into a row faithfully: " + why, src, nil}
+	}
+	if p := c.fc.pathFrom(fn, src, func(i ssa.Instruction) bool { return st.isReadLike(i) || isSuccessReturn(i) }, isAddRow, noRow); p != nil {
+		return &c19fail{"a successfully read record can reach the next read (or the end) without an AddRow: the record is skipped", src, p}
+	}
+	for _, a := range addRows {
+		if !c.fc.reachableFrom(fn, src, a) {
+			continue
+		}
+		if p := c.fc.pathFrom(fn, a, isAddRow, st.isReadLike, nil); p != nil {
+			return &c19fail{"a record can be added twice before the next read", a, p}
+		}
+	}
+	return nil
+}
+
+// c19source describes a record source: a helper of the command that reads one record and returns it as a row.
+type c19source struct {
+	km, ke, kb int  // result indices of the row (map), the error (last result) and the optional "have a row" flag (-1: none)
+	bT         bool // value of the flag on the returns that carry a row
+	noRow      []c19noRow
+}
+
+// c19noRow is a return of a record source that carries no row, with the ways its caller can tell: the flag is the
+// constant opposite of bT (okDist), the error is known to be non-nil (errDist).
+type c19noRow struct {
+	ret             *ssa.Return
+	okDist, errDist bool
+}
+
+// c19RecordSource decides whether fn, which reads a record at r but adds no row itself, hands every successfully read
+// record to its caller as a faithful row: its results include one map (the row) and a trailing error; the returns that
+// carry a row (map built from this record and the normalised header by rowBuilt, nil error, constant flag) are reached on
+// every path on which the read succeeded; every other return can be told from them by the caller (opposite constant flag,
+// or an error that is known non-nil). The caller side (AddRow exactly once per row, never without one) is checked by
+// c19Records with the description returned here.
+func c19RecordSource(st *c19rec, fn *ssa.Function, r *ssa.Call, isRec func(ssa.Value) bool, errv ssa.Value) (*c19source, *c19fail) {
+	c := st.c
+	res := fn.Signature.Results()
+	src := &c19source{km: -1, ke: -1, kb: -1}
+	for k := 0; k < res.Len(); k++ {
+		switch t := res.At(k).Type().Underlying().(type) {
+		case *types.Map:
+			if src.km >= 0 {
+				src.km = -2
+			} else if src.km == -1 {
+				src.km = k
+			}
+		case *types.Basic:
+			if t.Kind() == types.Bool {
+				if src.kb >= 0 {
+					src.kb = -2
+				} else if src.kb == -1 {
+					src.kb = k
+				}
+			}
+		}
+	}
+	if res.Len() > 0 && isErrorType(res.At(res.Len()-1).Type()) {
+		src.ke = res.Len() - 1
+	}
+	if src.km < 0 || src.ke < 0 || src.kb == -2 {
+		return nil, &c19fail{"the record is not turned into a row faithfully: no AddRow call takes a row built from this record (" + safeFname(fn) + " reads it, but neither adds a row nor returns one together with an error)", r, nil}
+	}
+	var rets []*ssa.Return
+	allInstrs(fn, func(i ssa.Instruction) {
+		if ret, ok := i.(*ssa.Return); ok && !isRecoverBlockReturn(ret) && len(ret.Results) == res.Len() {
+			rets = append(rets, ret)
+		}
+	})
+	rowRet := map[ssa.Instruction]bool{}
+	why, haveFlag := "no return of "+safeFname(fn)+" carries a row", false
+	for _, ret := range rets {
+		vals := retVals(ret)
+		if !isNilConst(vals[src.ke]) || isNilConst(vals[src.km]) {
+			continue
+		}
+		ok, w := rowBuilt(c, vals[src.km], func(x ssa.Value) bool { return st.isHdr(fn, x) }, isRec, ret, 0)
+		if !ok {
+			why = w
+			continue
+		}
+		if src.kb >= 0 {
+			b, isK := constBool(vals[src.kb])
+			if !isK {
+				why = "the flag returned next to the row is not a constant"
+				continue
+			}
+			if haveFlag && b != src.bT {
+				return nil, &c19fail{"the record is not turned into a row faithfully: " + safeFname(fn) + " returns rows with both values of its flag, the caller cannot tell a row from the end of the input", ret, nil}
+			}
+			src.bT, haveFlag = b, true
+		}
+		rowRet[ret] = true
+	}
+	if len(rowRet) == 0 {
+		return nil, &c19fail{"the record is not turned into a row faithfully: " + why, r, nil}
+	}
+	for _, ret := range rets {
+		if rowRet[ret] {
+			continue
+		}
+		vals := retVals(ret)
+		nr := c19noRow{ret: ret}
+		if src.kb >= 0 {
+			if b, isK := constBool(vals[src.kb]); isK && b != src.bT {
+				nr.okDist = true
+			}
+		}
+		ev := vals[src.ke]
+		if knownNonNil(ev, ret) || isGlobalNamed(ev, "io", "EOF") {
+			nr.errDist = true
+		} else if call, ok := ev.(*ssa.Call); ok && (calleeName(&call.Call) == "fmt.Errorf" || calleeName(&call.Call) == "errors.New") {
+			nr.errDist = true
+		}
+		if !nr.okDist && !nr.errDist {
+			return nil, &c19fail{"the record is not turned into a row faithfully: " + safeFname(fn) + " can return without a row in a way its caller cannot tell from a row (neither a non-nil error nor the opposite flag)", ret, nil}
+		}
+		src.noRow = append(src.noRow, nr)
+	}
+	// a record that was read successfully leaves the helper as a row
+	lost := func(i ssa.Instruction) bool {
+		if ret, ok := i.(*ssa.Return); ok {
+			return !rowRet[ret]
+		}
+		return st.isReadLike(i)
+	}
+	if p := c.fc.pathFrom(fn, r, lost, nil, c19NoRowEdge(errv, nil, false)); p != nil {
+		return nil, &c19fail{"a successfully read record can leave " + safeFname(fn) + " without being returned as a row (or the next record is read first): the record is skipped", r, p}
+	}
+	return src, nil
 }
 
 // rowBuilt: m (the argument of AddRow at instruction `at`) is a map made for this record and filled with
